@@ -1109,6 +1109,19 @@ def _c02_xtype(tier):
                 for T in "is":
                     S.add("seek 1 0 0", "read 1 %s i %d" % (T, len(vals)))
                 S.add("seek 1 0 0", "read 1 %s i %d" % (Tw, len(vals)), "close 1")
+    # integers written into float / double files with SFC_SET_SCALE_INT_FLOAT_WRITE on: v / 2^15 and v / 2^31
+    ivs = [0, 1, -1, 32767, -32768, 12345, -5, 16384, -16384, 3]
+    ivi = [0, 1, -1, 2147483647, -2147483648, 2147483520, 16777217, -16777217, 1 << 30, -(1 << 30), 123456789, -987654321, 65536, 33]
+    for fmt in (0x40006, 0x20040006, 0x10006, 0x20006, 0x30006, 0x180006, 0x40007, 0x10007, 0x20007, 0x180007) if tier == "quick" else [f for f, c in ok if scen.sub(f) in (6, 7) and c == 1]:
+        for ch in (1, 2):
+            if (fmt & 0x0FFFFFFF, ch) not in ok and (fmt, ch) not in ok:
+                continue
+            Tw = "f" if scen.sub(fmt) == 6 else "d"
+            a, b = ivs[:len(ivs) // ch * ch], ivi[:len(ivi) // ch * ch]
+            S.scn(fmt="0x%x" % fmt, ch=ch, T=Tw, kind="i2fscale", fmode=1)
+            S.add("file 1 new", "open 0 vio w 1 %d %d %d" % (fmt, ch, RATE), "cmd 0 SET_SCALE_INT_FLOAT_WRITE 1",
+                  "write 0 s i %d %s" % (len(a), " ".join(map(str, a))), "write 0 i i %d %s" % (len(b), " ".join(map(str, b))), "close 0",
+                  "open 1 vio r 1 %d %d %d" % (fmt if scen.major(fmt) == scen.RAW else 0, ch, RATE), "read 1 %s i %d" % (Tw, len(a) + len(b) + ch), "close 1")
     return [(S.lines, "TraceCore.tla", "TraceCore.cfg", "xtype")]
 
 
